@@ -18,6 +18,8 @@ mod val;
 mod p_clvm;
 mod corpus;
 mod p_history;
+mod p_repl;
+mod p_symbols;
 mod p_usecheck;
 mod p_entry;
 mod p_includes;
@@ -35,6 +37,8 @@ pub fn handle(job: &Value) -> Value {
         "deps" => p_includes::op_deps(job),
         "entry" => p_entry::op_entry(job),
         "usecheck" => p_usecheck::op_usecheck(job),
+        "repl" => p_repl::op_repl(job),
+        "modrun" => p_repl::op_modrun(job),
         "ping" => json!({"pong": true}),
         other => json!({"error": format!("unknown op {other}")}),
     }
@@ -52,6 +56,8 @@ fn main() {
         "replay-clvm" => p_clvm::replay(&rest),
         "drive-clvm" => p_clvm::drive(&rest),
         "drive-compile" => p_compile::drive(&rest),
+        "drive-repl" => p_repl::drive(&rest),
+        "drive-symbols" => p_symbols::drive(&rest),
         "drive-usecheck" => p_usecheck::drive(&rest),
         "drive-shipped" => p_compile::drive_shipped(&rest),
         "replay-compile" => p_compile::replay(&rest),
